@@ -172,7 +172,7 @@ def rule_path_literal_gate(chk: Check):
     parser = repo.find_class(sub, "Parser")
     sp = repo.find_func(parser, "_strip_path_prefix")
     F = constfold.fold_tokenize()
-    prefixes = sorted(F.ns["_all_string_prefixes"]())  # type: ignore[attr-defined]
+    prefixes = sorted(constfold.string_prefix_set())
 
     class FakeTok:
         def __init__(self, string):
